@@ -36,6 +36,8 @@ type C14Op struct {
 	Pos    refclient.Pos  `json:"pos,omitempty"`
 	Config map[string]any `json:"config,omitempty"`
 	Wait   int            `json:"wait"` // after the op: 0 proceed at once, 1 yield, 2 wait for quiescence
+	Hold   bool           `json:"hold,omitempty"` // open/change: the analysis this notification starts is held at its first statement until a release op
+	LIFO   bool           `json:"lifo,omitempty"` // release: last held first
 }
 
 type C14Case struct {
@@ -56,6 +58,57 @@ type c14Hooks struct {
 	cfgDone  int
 	inflight int
 	enabled  bool
+	holdWant map[string]int  // uri+content of analyses to hold when they start
+	held     []chan struct{} // analyses waiting at diag.start
+}
+
+func (h *c14Hooks) wantHold(uri, content string) {
+	h.mu.Lock()
+	if h.holdWant == nil {
+		h.holdWant = map[string]int{}
+	}
+	h.holdWant[uri+"\x00"+content]++
+	h.mu.Unlock()
+}
+
+// nHeld returns the number of analyses waiting at the hook and of those that a
+// notification already handled has started but that have not arrived there yet.
+func (h *c14Hooks) nHeld() (held, pending int) {
+	h.mu.Lock()
+	defer h.mu.Unlock()
+	for _, v := range h.holdWant {
+		pending += v
+	}
+	return len(h.held), pending
+}
+
+// stopHolding releases everything and holds nothing further.
+func (h *c14Hooks) stopHolding() {
+	h.mu.Lock()
+	held := h.held
+	h.held, h.holdWant = nil, map[string]int{}
+	h.mu.Unlock()
+	for _, ch := range held {
+		close(ch)
+	}
+}
+
+// releaseOne lets one held analysis run; false when none is held.
+func (h *c14Hooks) releaseOne(lifo bool) bool {
+	h.mu.Lock()
+	if len(h.held) == 0 {
+		h.mu.Unlock()
+		return false
+	}
+	i := 0
+	if lifo {
+		i = len(h.held) - 1
+	}
+	ch := h.held[i]
+	h.held = append(h.held[:i:i], h.held[i+1:]...)
+	h.mu.Unlock()
+	close(ch)
+	return true
 }
 
 var c14h = &c14Hooks{}
@@ -70,6 +123,14 @@ func (h *c14Hooks) handler(name string, args ...string) {
 		h.cfgDone++
 	case "diag.start":
 		h.inflight++
+		if key := args[0] + "\x00" + args[1]; h.enabled && h.holdWant[key] > 0 {
+			h.holdWant[key]--
+			ch := make(chan struct{})
+			h.held = append(h.held, ch)
+			h.mu.Unlock()
+			<-ch
+			return
+		}
 	case "diag.done":
 		h.inflight--
 	}
@@ -86,6 +147,7 @@ func (h *c14Hooks) handler(name string, args ...string) {
 func (h *c14Hooks) reset(delays []int, enabled bool) {
 	h.mu.Lock()
 	h.delays, h.next, h.cfgStart, h.cfgDone, h.inflight, h.enabled = delays, 0, 0, 0, 0, enabled
+	h.holdWant, h.held = map[string]int{}, nil
 	h.mu.Unlock()
 }
 
@@ -179,6 +241,26 @@ func c14Execute(c *C14Case, sequential bool) (*c14Run, []ev.Discrepancy) {
 	h := env.H
 	open := map[int]bool{}
 	version := 1
+	// quiescence apart from the analyses that are being held
+	settle := func(extra int) error {
+		deadline := time.Now().Add(60 * time.Second)
+		for i := 0; ; i++ {
+			if held, pending := c14h.nHeld(); pending == 0 && h.BusyBeyond(held+extra) <= 0 {
+				return nil
+			}
+			if i < 200 {
+				runtime.Gosched()
+			} else {
+				time.Sleep(50 * time.Microsecond)
+			}
+			if i%1000 == 999 && time.Now().After(deadline) {
+				return lspx.ErrNotQuiescent
+			}
+		}
+	}
+	defer func() {
+		c14h.stopHolding()
+	}()
 	cfgCalls := 1 // Initialized starts one refresh
 	// Once two configuration refreshes have overlapped, which payload is applied last depends on
 	// their interleaving (the stub hands out a different payload per event): responses that may
@@ -198,13 +280,21 @@ func c14Execute(c *C14Case, sequential bool) (*c14Run, []ev.Discrepancy) {
 				switch op.Op {
 				case "open":
 					if !open[doc] {
-						_ = h.Open(uri, c14Text(c, env, doc, op.Alt))
+						text := c14Text(c, env, doc, op.Alt)
+						if op.Hold && !sequential {
+							c14h.wantHold(uri, text)
+						}
+						_ = h.Open(uri, text)
 						open[doc] = true
 					}
 				case "change":
 					if open[doc] {
 						version++
-						_ = h.Change(uri, version, []refclient.Change{{Text: c14Text(c, env, doc, op.Alt)}})
+						text := c14Text(c, env, doc, op.Alt)
+						if op.Hold && !sequential {
+							c14h.wantHold(uri, text)
+						}
+						_ = h.Change(uri, version, []refclient.Change{{Text: text}})
 					}
 				case "save":
 					if open[doc] {
@@ -214,6 +304,17 @@ func c14Execute(c *C14Case, sequential bool) (*c14Run, []ev.Discrepancy) {
 					if open[doc] {
 						_ = h.Close(uri)
 						open[doc] = false
+					}
+				case "release":
+					// the held analyses run to completion one after the other, in the chosen order
+					// (this op runs in a goroutine of its own: one more than the baseline)
+					if err := settle(1); err != nil { // every analysis to be held has arrived
+						panic(err)
+					}
+					for c14h.releaseOne(op.LIFO) {
+						if err := settle(1); err != nil {
+							panic(err)
+						}
 					}
 				case "config":
 					cfg := map[string]any{}
@@ -267,11 +368,15 @@ func c14Execute(c *C14Case, sequential bool) (*c14Run, []ev.Discrepancy) {
 		case 1:
 			runtime.Gosched()
 		case 2:
-			if err := h.Quiesce(); err != nil {
+			if err := settle(0); err != nil {
 				ds = append(ds, ev.D("c14.hang", "step %d: %v", si, err))
 				return run, ds
 			}
 		}
+	}
+	_ = settle(0)
+	for c14h.releaseOne(false) {
+		_ = settle(0)
 	}
 	for d := range open {
 		if open[d] {
@@ -394,11 +499,15 @@ func genC14(t *rapid.T, p *gen.Profile) *C14Case {
 	for s := 0; s < steps; s++ {
 		d := rapid.IntRange(0, n-1).Draw(t, "doc")
 		op := C14Op{Doc: d, Wait: rapid.SampledFrom([]int{0, 0, 0, 1, 2}).Draw(t, "wait")}
-		switch rapid.IntRange(0, 11).Draw(t, "op") {
+		switch rapid.IntRange(0, 12).Draw(t, "op") {
 		case 0:
 			op.Op, op.Alt = "open", rapid.IntRange(0, 2).Draw(t, "alt")
+			op.Hold = rapid.IntRange(0, 3).Draw(t, "hold") == 0
 		case 1, 2, 3:
 			op.Op, op.Alt = "change", rapid.IntRange(0, 2).Draw(t, "alt")
+			op.Hold = rapid.IntRange(0, 3).Draw(t, "hold") == 0
+		case 12:
+			op.Op, op.LIFO = "release", rapid.Bool().Draw(t, "lifo")
 		case 4:
 			op.Op = "save"
 		case 5:
@@ -410,6 +519,21 @@ func genC14(t *rapid.T, p *gen.Profile) *C14Case {
 			op.Pos = refclient.Pos{Line: rapid.IntRange(0, 12).Draw(t, "line"), Char: rapid.IntRange(0, 30).Draw(t, "char")}
 		}
 		c.Ops = append(c.Ops, op)
+	}
+	if rapid.IntRange(0, 3).Draw(t, "latepattern") == 0 {
+		// the analysis of a superseded version finishes after that of its successor, then requests
+		d := rapid.IntRange(0, n-1).Draw(t, "pdoc")
+		a1 := rapid.IntRange(0, 2).Draw(t, "palt1")
+		a2 := (a1 + rapid.IntRange(1, 2).Draw(t, "palt2")) % 3
+		c.Ops = append(c.Ops,
+			C14Op{Op: "open", Doc: d, Alt: a1, Wait: 2},
+			C14Op{Op: "change", Doc: d, Alt: a1, Hold: true},
+			C14Op{Op: "change", Doc: d, Alt: a2, Wait: rapid.SampledFrom([]int{0, 2}).Draw(t, "pwait")},
+			C14Op{Op: "release", Wait: 2})
+		for k := rapid.IntRange(1, 3).Draw(t, "preqs"); k > 0; k-- {
+			c.Ops = append(c.Ops, C14Op{Op: "request", Doc: d, Kind: rapid.SampledFrom([]string{"completion", "hover", "definition", "references", "rename", "inlineCompletion"}).Draw(t, "pkind"),
+				Pos: refclient.Pos{Line: rapid.IntRange(0, 12).Draw(t, "pline"), Char: rapid.IntRange(0, 30).Draw(t, "pchar")}})
+		}
 	}
 	nd := rapid.IntRange(0, 12).Draw(t, "ndelays")
 	for i := 0; i < nd; i++ {
